@@ -82,6 +82,7 @@ def gen_cases(tier, seed):
             # many entries + a budget of a few bytes: the gene-major tables
             # are built in several windows
             c['big'] = True
+            c['big_gene_list'] = bool((i // 6) % 2)
         cases.append(c)
     return cases
 
@@ -92,8 +93,8 @@ def make_cells(rng, dup=False, dead_block=False, big=False, huge=False):
     if big:
         # enough (pair, gene) entries to cross the enforced minimum window
         # of the on-disk transposition several times
-        k = int(rng.integers(12, 16))
-        n_genes = int(rng.integers(40, 70))
+        k = int(rng.integers(14, 18))
+        n_genes = int(rng.integers(55, 75))
     names = gen._pick_names(rng, k, gen.NODE_NAME_POOL)
     sizes = []
     for i in range(k):
@@ -539,9 +540,10 @@ def run_case(spec, work):
         exact = False
         th['p_th'] = 0.05
     gene_list = None
-    if (rng.random() < 0.35 and not spec.get('big')) or \
-            (spec.get('big') and spec['seed'] % 2 == 0):
+    if rng.random() < 0.35 and not spec.get('big'):
         gene_list = [g for g in genes if rng.random() < 0.6] or [genes[0]]
+    if spec.get('big') and spec.get('big_gene_list'):
+        gene_list = [g for g in genes if rng.random() < 0.85]
     if spec.get('big') and gene_list is not None:
         # many pairs, a gene list, approximate penetrance: pairs short of
         # n_valid markers go through the relaxed second pass
